@@ -67,3 +67,16 @@ Theorem C01_source_decode_generic_consults :
     "go_nkeys_Decode"; "go_nkeys_FromPublicKey"; "go_nkeys_Prefix"]%list.
 Proof. reflexivity. Qed.
 Print Assumptions C01_source_decode_generic_consults.
+
+(* the authorization loaders (v2/decoder_authorization.go): claims are accepted only when their OWN version equals the
+   version loadClaims dispatched on - the version that also selects the text the signature is checked over (the F7
+   repair) - and they are handed back exactly as unmarshalled (no version stamped, nothing normalised): so accepted
+   authorization claims report the version whose layout was verified *)
+Theorem C01_source_auth_response_version : forall (V : Type) (vnil : V) unm (ty : V -> string) (ver : V -> Z) (data : string) (version : Z) (v : V),
+  V2.loadAuthorizationResponse V vnil unm ty ver data version = (v, None) -> v = fst (unm data) /\ ver v = version.
+Proof. intros V vnil. exact (src_load_auth_response_version vnil). Qed.
+Print Assumptions C01_source_auth_response_version.
+Theorem C01_source_auth_request_version : forall (V : Type) (vnil : V) unm (ty : V -> string) (ver : V -> Z) (data : string) (version : Z) (v : V),
+  V2.loadAuthorizationRequest V vnil unm ty ver data version = (v, None) -> v = fst (unm data) /\ ver v = version.
+Proof. intros V vnil. exact (src_load_auth_request_version vnil). Qed.
+Print Assumptions C01_source_auth_request_version.
